@@ -1,18 +1,22 @@
 """C19 — permission-gated code execution never runs a forbidden construct."""
 import ast
+import collections
 import contextlib
 import io
+import pickle
 import traceback
 import types
 import warnings
 
 import pyglove as pg
+from pgverif.gen import excprograms as XP
 from pgverif.gen import programs as PG
 from pgverif.monitors import audit
 
 TIERS = {
-    'quick': dict(shards=8, cases=190, sandbox_every=40),
-    'thorough': dict(shards=16, cases=6000, sandbox_every=60, timeout_s=3000),
+    'quick': dict(shards=8, cases=190, sandbox_every=12, exception_value_share=0.08),
+    'thorough': dict(shards=16, cases=6000, sandbox_every=20, exception_value_share=0.06,
+                     timeout_s=3000),
 }
 RULE = ('case = one generated program (recursive generator over all statement and '
         'expression kinds, depth 1-4, rendered as text; 4% are non-Python texts; 12% '
@@ -24,14 +28,25 @@ RULE = ('case = one generated program (recursive generator over all statement an
         'and ALL in the three output modes (differential against plain exec), '
         'all 256 subsets for small programs or the subsets around the required '
         'set otherwise (required minus each flag, none, random), as `permission=` '
-        'argument, as enclosing scope, as scope plus argument, as nested scopes, '
-        'through evaluate and run (sandboxed now and then). Non-trivial = the '
+        'argument, as enclosing scope, as scope plus argument, as nested scopes, as '
+        'nested scopes plus argument, each crossed with the way of executing: '
+        'evaluate, run / maybe_sandbox_call(evaluate) with sandbox=False with and '
+        'without a (generous) timeout, and - for every sandbox_every-th program - '
+        'run / maybe_sandbox_call / sandbox_call with sandbox=True / None, with and '
+        'without timeout (forked; the outcome must equal plain exec wherever the '
+        'values survive pickling). exception_value_share of the cases are programs '
+        'whose values are exception objects or classes (builtin, user-defined '
+        'picklable, program-defined; as last value, assigned variable, inside '
+        'containers, printed, or really raised) compared in all output modes and '
+        'all ways of executing. Non-trivial = the '
         'program has at least two different gated construct classes or nesting '
         'depth >= 2 and was both refused and executed at least once; distinct by '
         'program text.')
 REQUIRED_COUNTERS = ['must_refuse_checks', 'must_accept_checks', 'differential_runs',
                      'error_reports_ok', 'error_position_checks_with_intermediate_lines',
-                     'audit_exec_events', 'refused_without_exec', 'scope_checks']
+                     'audit_exec_events', 'refused_without_exec', 'scope_checks',
+                     'scope_with_timeout_checks', 'forked_refusal_checks',
+                     'forked_differential_runs', 'exception_value_results_compared']
 ASSUMPTIONS = [
     'CPython exec() of the same text with the same globals is the reference',
     'sys.addaudithook sees every exec()/eval() of a code object; the probe object sees the first statement',
@@ -40,6 +55,11 @@ ASSUMPTIONS = [
     '__result__ is compared only when the last statement is an expression or an assignment to plain names',
     'an inner permission scope is not required to narrow (documented: outermost scope wins); an argument or scope may never widen the enclosing scope',
     'permission=None without a scope is not a permission set and is not exercised',
+    'run / maybe_sandbox_call(evaluate) / sandbox_call(evaluate) are ways of executing the same evaluation: '
+    'the permission in force and the outcome do not depend on sandbox= / timeout= (timeouts used are far above the run time)',
+    'sandbox=True may raise SerializationError instead of returning when a transported value does not survive '
+    'pickle.loads(pickle.dumps(v)) in the harness (documented); sandbox=None then falls back and must return it',
+    'pg.coding.make_function takes no permission and is not a gated entry point (not exercised)',
 ]
 
 P = pg.coding.CodePermission
@@ -147,6 +167,20 @@ def shared_state(g):
   return norm([g['gl'], g['gd'], sorted(vars(g['gobj']).items())])
 
 
+def _round_trips(v):
+  """Does the value survive pickling (what a sandboxed run has to do with it)?"""
+  try:
+    return norm(pickle.loads(pickle.dumps(v))) == norm(v)
+  except Exception:  # pylint: disable=broad-except
+    return False
+
+
+def fresh_globals(probe):
+  g = PG.initial_globals(probe)
+  g.update(XP.extra_globals())
+  return g
+
+
 class Ref:
   """Plain execution of the program text."""
 
@@ -161,10 +195,12 @@ class Ref:
       ast.fix_missing_locations(tree)
     self.codeobj = compile(tree, REF, 'exec')      # SyntaxError -> not a valid program
     probe = PG.Probe()
-    g = PG.initial_globals(probe)
+    g = fresh_globals(probe)
     init = dict(g)
     out = io.StringIO()
     self.error = None
+    self.error_norm = None
+    self.error_picklable = True
     try:
       with contextlib.redirect_stdout(out):
         exec(self.codeobj, g)  # pylint: disable=exec-used
@@ -172,32 +208,87 @@ class Ref:
       frames = traceback.extract_tb(e.__traceback__)
       lines = [f.lineno for f in frames if f.filename == REF]
       self.error = (type(e).__name__, lines)
+      self.error_norm = norm(e)
+      self.error_picklable = _round_trips(e)
       # number of calls (program or library code) between the top-level
       # statement that was executing and the raise
       first = [k for k, f in enumerate(frames) if f.filename == REF][0]
       self.error_depth = len(frames) - 1 - first
     self.stdout = out.getvalue()
     self.result = None
+    self.raw_result = None
     if self.error is None and defined:
-      self.result = norm(g['__ref_result__'] if kind == 'Expr'
+      self.raw_result = (g['__ref_result__'] if kind == 'Expr'
                          else g[info.last.targets[0].id])
-    self.outputs = {k: norm(v) for k, v in g.items()
-                    if k not in ('__builtins__', '__ref_result__')
-                    and (k not in init or v is not init[k])}
+      self.result = norm(self.raw_result)
+    self.raw_outputs = {k: v for k, v in g.items()
+                        if k not in ('__builtins__', '__ref_result__')
+                        and (k not in init or v is not init[k])}
+    self.outputs = {k: norm(v) for k, v in self.raw_outputs.items()}
     self.shared = shared_state(g)
     self.hits = probe.hits()
+    self._transportable = {}
+
+  def transportable(self, mode):
+    """Do the values a forked run of this mode has to send back survive pickling?"""
+    if mode == 'stdout':
+      return True
+    if mode not in self._transportable:
+      outputs_ok = all(_round_trips(v) for v in self.raw_outputs.values())
+      result_ok = _round_trips(self.raw_result) if self.result_defined else outputs_ok
+      self._transportable[mode] = result_ok if mode == 'result' else (result_ok and outputs_ok)
+    return self._transportable[mode]
 
 
 class Outcome:
   pass
 
 
+# A way of executing: (entry point, sandbox, timeout).
+T_GENEROUS = 60
+E_EVAL = ('evaluate', False, None)
+# ... in this process:
+INPROC_ALT = [('run', False, None), ('run', False, T_GENEROUS),
+              ('maybe_sandbox_call', False, None), ('maybe_sandbox_call', False, T_GENEROUS)]
+# ... in a forked child (by entry point and sandbox value; timeout None or generous):
+FORKED_KINDS = [('run', True), ('run', None), ('sandbox_call', True),
+                ('maybe_sandbox_call', True), ('maybe_sandbox_call', None)]
+
+
+def forked_entry(rng, k=None, timeout='random'):
+  name, sb = FORKED_KINDS[k] if k is not None else rng.choice(FORKED_KINDS)
+  if timeout == 'random':
+    timeout = rng.choice([None, T_GENEROUS])
+  return (name, sb, timeout)
+
+
+def inproc_entry(rng, p_eval=0.4):
+  return E_EVAL if rng.random() < p_eval else rng.choice(INPROC_ALT)
+
+
+def is_forked(entry):
+  return entry[1] is not False
+
+
+def entry_desc(entry):
+  """Mechanism text of a way of executing (harness facts only).  The timeout
+  is named only where it selects something (in-process execution)."""
+  name, sb, timeout = entry
+  if name == 'evaluate':
+    return 'evaluate'
+  if name == 'sandbox_call':
+    return 'sandbox_call'
+  return f'{name}:sandbox={sb}' + (':timeout' if timeout is not None and sb is False else '')
+
+
 def call_lib(code, kind, arg=None, outer=None, inner=None, mode='result',
-             sandbox=None, scope_problems=None):
+             entry=E_EVAL, scope_problems=None):
   """One evaluation by the library. Returns an Outcome."""
   o = Outcome()
-  probe = audit.FdProbe() if sandbox else PG.Probe()
-  g = PG.initial_globals(probe)
+  name, sandbox, timeout = entry
+  forked = is_forked(entry)
+  probe = audit.FdProbe() if forked else PG.Probe()
+  g = fresh_globals(probe)
   kwargs = dict(global_vars=g)
   if mode == 'stdout':
     kwargs['returns_stdout'] = True
@@ -205,8 +296,13 @@ def call_lib(code, kind, arg=None, outer=None, inner=None, mode='result',
     kwargs['outputs_intermediate'] = True
   if arg is not None:
     kwargs['permission'] = P(arg)
-  if kind == 'run':
-    fn = lambda: pg.coding.run(code, sandbox=bool(sandbox), timeout=60 if sandbox else None, **kwargs)
+  if name == 'run':
+    fn = lambda: pg.coding.run(code, sandbox=sandbox, timeout=timeout, **kwargs)
+  elif name == 'maybe_sandbox_call':
+    fn = lambda: pg.coding.maybe_sandbox_call(pg.coding.evaluate, code, sandbox=sandbox,
+                                              timeout=timeout, **kwargs)
+  elif name == 'sandbox_call':
+    fn = lambda: pg.coding.sandbox_call(pg.coding.evaluate, code, timeout=timeout, **kwargs)
   else:
     fn = lambda: pg.coding.evaluate(code, **kwargs)
   o.status, o.value, o.error = 'ok', None, None
@@ -222,10 +318,10 @@ def call_lib(code, kind, arg=None, outer=None, inner=None, mode='result',
         if inner is not None:
           y = st.enter_context(pg.coding.permission(P(inner)))
           got = pg.coding.get_permission()
-          for name, val in (('yielded', y), ('get_permission', got)):
+          for nm, val in (('yielded', y), ('get_permission', got)):
             if val is None or (val.value & ~outer):
-              sp.append(('scope-widened', 'nested-permission-' + name,
-                         f'outer {P(outer)!r} inner {P(inner)!r}: {name} = {val!r}'))
+              sp.append(('scope-widened', 'nested-permission-' + nm,
+                         f'outer {P(outer)!r} inner {P(inner)!r}: {nm} = {val!r}'))
         o.value = fn()
     except pg.coding.CodeError as e:
       o.status, o.error = 'code-error', e
@@ -244,7 +340,7 @@ def call_lib(code, kind, arg=None, outer=None, inner=None, mode='result',
 
 def effective(kind, arg, outer, inner):
   """(set whose lack obliges refusal, set that obliges acceptance)."""
-  if kind in ('arg', 'run'):
+  if kind == 'arg':
     return arg, arg
   if kind == 'scope':
     return outer, outer
@@ -252,6 +348,8 @@ def effective(kind, arg, outer, inner):
     return arg & outer, arg & outer
   if kind == 'nested':
     return outer, outer & inner
+  if kind == 'nested+arg':
+    return outer & arg, outer & inner & arg
   raise AssertionError(kind)
 
 
@@ -264,7 +362,7 @@ def refusal_mechanisms(info, kind, arg, outer, inner, refuse_set):
   config = None
   if arg is not None and arg == 0:
     config = 'empty-permission-argument'
-  elif kind == 'scope+arg':
+  elif kind in ('scope+arg', 'nested+arg'):
     config = 'argument-wider-than-scope'
   elif kind == 'nested':
     config = 'inner-scope-wider-than-outer'
@@ -285,30 +383,37 @@ def setup(ctx):
     raise RuntimeError('audit hook self-test failed: exec/compile events are not observed')
   if pg.coding.get_permission() is not None:
     raise RuntimeError('a permission scope is active at start-up')
+  for src in XP.INSTANCES + XP.BASE_INSTANCES + XP.CLASSES:
+    v = eval(src, fresh_globals(PG.Probe()))  # pylint: disable=eval-used
+    if not _round_trips(v):
+      raise RuntimeError(f'{src} is meant to be picklable')
 
 
-def fmt_cfg(kind, arg, outer, inner, mode, sandbox=None):
+def fmt_cfg(kind, arg, outer, inner, mode, entry=E_EVAL):
   s = lambda v: None if v is None else (repr(P(v)) if v else 'CodePermission(0)')
-  return {'entry': kind, 'permission_arg': s(arg), 'outer_scope': s(outer),
-          'inner_scope': s(inner), 'mode': mode, 'sandbox': bool(sandbox)}
+  return {'permission_by': kind, 'permission_arg': s(arg), 'outer_scope': s(outer),
+          'inner_scope': s(inner), 'mode': mode, 'entry': entry[0],
+          'sandbox': entry[1], 'timeout': entry[2]}
 
 
-def check_one(ctx, info, ref, kind, arg=None, outer=None, inner=None,
-              mode='result', sandbox=None, differential=False, stats=None):
-  """Runs one configuration and judges it."""
-  c = ctx.counters
-  sp = []
-  o = call_lib(info.code, kind, arg, outer, inner, mode, sandbox, sp)
+def observe(c, info, ref, kind, arg, outer, inner, mode, entry, differential, stats=None,
+            sp=None):
+  """Runs one configuration and judges it.
+
+  Returns (outcome, problems); a problem is (clause, mechanism, detail,
+  suffix): the suffix qualifies the way of executing when the problem turns
+  out to depend on it (see check_one)."""
+  o = call_lib(info.code, kind, arg, outer, inner, mode, entry, sp)
+  forked = is_forked(entry)
+  tag = getattr(info, 'tag', None)
   c['evaluations_by_library'] += 1
-  c['cfg:' + kind + ('-sandbox' if sandbox else '')] += 1
+  c['cfg:' + kind] += 1
+  c['exec:' + entry_desc(entry) + (':timeout' if entry[2] is not None and forked else '')] += 1
   c['audit_exec_events'] += o.audit_execs
-  for fn in o.filenames:
-    ctx.seen('dynamic_code_filenames', fn)
-  witness = {'program': info.code, 'config': fmt_cfg(kind, arg, outer, inner, mode, sandbox)}
-  if outer is not None:
-    c['scope_checks'] += 1
-    for clause, mech, detail in sp:
-      ctx.violation(clause, mech, detail, witness)
+  if outer is not None and entry[2] is not None:
+    c['scope_with_timeout_checks'] += 1
+  problems = []
+  by = 'permission-from-scope' if outer is not None else 'permission-from-argument'
   refuse_set, accept_set = effective(kind, arg, outer, inner)
   refused = o.status == 'code-error' and not o.executed
   if refused:
@@ -319,116 +424,184 @@ def check_one(ctx, info, ref, kind, arg=None, outer=None, inner=None,
     stats['executed'] += 1
   if info.must & ~refuse_set:
     c['must_refuse_checks'] += 1
+    if forked:
+      c['forked_refusal_checks'] += 1
     if not refused:
       clause = 'ran-forbidden' if o.executed else 'not-refused'
       for mech in refusal_mechanisms(info, kind, arg, outer, inner, refuse_set):
-        ctx.violation(clause, mech,
-                      f'needs {P(info.must)!r}; outcome {o.status} '
-                      f'(exec audit events {o.audit_execs}, probe hits {o.hits}): {o.error!r:.300}',
-                      witness)
-    return o
+        problems.append((clause, mech,
+                         f'needs {P(info.must)!r}; outcome {o.status} '
+                         f'(exec audit events {o.audit_execs}, probe hits {o.hits}): {o.error!r:.300}',
+                         by))
+    return o, problems
   if (info.must | info.maybe) & ~accept_set:
     # Refusing is fine, accepting is fine (then it must behave like plain
     # exec); refusing after a part has run is not.
     c['dont_care_configs'] += 1
     if not o.executed:
-      return o
+      return o, problems
     if (o.status == 'code-error' and ref.error is None
         and isinstance(getattr(o.error, 'cause', None), SyntaxError)):
-      ctx.violation('ran-before-refusal', 'dont-care-construct',
-                    f'{o.error!r:.300}', witness)
-      return o
+      problems.append(('ran-before-refusal', 'dont-care-construct', f'{o.error!r:.300}', by))
+      return o, problems
   else:
     c['must_accept_checks'] += 1
     if refused or (o.status != 'ok' and not o.executed):
-      ctx.violation('refused-permitted', kind,
-                    f'needs at most {P(info.must | info.maybe)!r}; outcome {o.status}: {o.error!r:.400}',
-                    witness)
-      return o
+      problems.append(('refused-permitted', kind,
+                       f'needs at most {P(info.must | info.maybe)!r}; outcome {o.status}: {o.error!r:.400}',
+                       by))
+      return o, problems
   if not differential:
-    return o
+    return o, problems
   c['differential_runs'] += 1
+  if forked:
+    c['forked_differential_runs'] += 1
+  sfx = tag or ''
   last_kind, defined = info.last_kind()
   last_mech = 'last-statement:' + last_kind
   if ref.error is not None:
     c['differential_error_runs'] += 1
     if o.status == 'ok':
-      ctx.violation('outcome-differs', 'missing-error',
-                    f'plain exec raises {ref.error[0]}, library returned {o.value!r:.200}', witness)
+      problems.append(('outcome-differs', 'missing-error',
+                       f'plain exec raises {ref.error[0]}, library returned {o.value!r:.200}', sfx))
+    elif (entry[1] is True and not ref.error_picklable
+          and isinstance(o.error, pg.coding.SerializationError)):
+      # documented: sandbox=True cannot hand over what cannot be serialized
+      c['dont_care_unserializable_results'] += 1
     elif o.status != 'code-error':
-      ctx.violation('error-report', 'not-a-code-error',
-                    f'plain exec raises {ref.error[0]}, library raised {o.error!r:.300}', witness)
+      problems.append(('error-report', 'not-a-code-error',
+                       f'plain exec raises {ref.error[0]}, library raised {o.error!r:.300}', sfx))
     else:
       e = o.error
       cause = getattr(e, 'cause', None)
-      if type(cause).__name__ != ref.error[0] or (not sandbox and e.__cause__ is not cause):
-        ctx.violation('error-report', 'cause',
-                      f'plain exec raises {ref.error[0]}, CodeError.cause is {cause!r:.200}, '
-                      f'__cause__ {e.__cause__!r:.200}', witness)
+      if (type(cause).__name__ != ref.error[0] or (not forked and e.__cause__ is not cause)
+          or (isinstance(cause, BaseException) and norm(cause) != ref.error_norm)):
+        problems.append(('error-report', 'cause',
+                         f'plain exec raises {ref.error_norm!r:.200}, CodeError.cause is {cause!r:.200}, '
+                         f'__cause__ {e.__cause__!r:.200}', sfx))
       elif getattr(e, 'lineno', None) not in (ref.error[1][0], ref.error[1][-1]):
         # The position of an error in the program is the line of the top-level
         # statement that was executing (what the library documents) or the
         # innermost program line of the traceback (the other reading of
         # "position"); a line of an intermediate call or no line is neither.
-        ctx.violation('error-report',
-                      'position' if ref.error_depth == 0 else 'position-of-error-in-called-code',
-                      f'{ref.error[0]} raised {ref.error_depth} calls below the top-level statement; '
-                      f'program lines of the traceback (outermost first) {ref.error[1]}, '
-                      f'CodeError.lineno = {getattr(e, "lineno", None)!r}', witness)
+        problems.append(('error-report',
+                         'position' if ref.error_depth == 0 else 'position-of-error-in-called-code',
+                         f'{ref.error[0]} raised {ref.error_depth} calls below the top-level statement; '
+                         f'program lines of the traceback (outermost first) {ref.error[1]}, '
+                         f'CodeError.lineno = {getattr(e, "lineno", None)!r}', sfx))
       else:
         c['error_reports_ok'] += 1
         c['error_position_checks:depth-%s' % (ref.error_depth if ref.error_depth < 9 else '9+')] += 1
         if len(set(ref.error[1])) >= 3:
           c['error_position_checks_with_intermediate_lines'] += 1
-    return o
+        if tag:
+          c['exception_value_errors_compared'] += 1
+    return o, problems
   if o.status != 'ok':
+    if (entry[1] is True and isinstance(o.error, pg.coding.SerializationError)
+        and not ref.transportable(mode)):
+      # documented: sandbox=True cannot return what cannot be serialized
+      c['dont_care_unserializable_results'] += 1
+      return o, problems
     special = last_kind in ('AugAssign', 'AnnAssign', 'Assign-non-name-target')
-    ctx.violation('outcome-differs', last_mech if special else 'unexpected-error',
-                  f'plain exec succeeds, library raised {o.error!r:.400}', witness)
-    return o
+    problems.append(('outcome-differs', last_mech if special else 'unexpected-error',
+                     f'plain exec succeeds, library raised {o.error!r:.400}', sfx))
+    return o, problems
   c['differential_ok_runs'] += 1
   special = last_kind in ('AugAssign', 'AnnAssign', 'Assign-non-name-target')
   state_mech = last_mech if special else 'globals'
+  # values that went through a pickle are compared when the reference values
+  # survive one (in-process runs: always)
+  comparable = (not forked) or ref.transportable(mode)
+  if forked and not comparable:
+    c['forked_values_not_compared'] += 1
   if mode == 'result':
-    if defined:
+    if defined and comparable:
       c['result_compared'] += 1
+      if tag:
+        c['exception_value_results_compared'] += 1
       if norm(o.value) != ref.result:
-        ctx.violation('result-differs', last_mech,
-                      f'plain exec: {ref.result!r:.200}; library: {norm(o.value)!r:.200}', witness)
+        problems.append(('result-differs', last_mech,
+                         f'plain exec: {ref.result!r:.200}; library: {norm(o.value)!r:.200}', sfx))
   elif mode == 'stdout':
     c['stdout_compared'] += 1
     if o.value != ref.stdout:
-      ctx.violation('stdout-differs', 'returns_stdout',
-                    f'plain exec: {ref.stdout!r:.200}; library: {o.value!r:.200}', witness)
+      problems.append(('stdout-differs', 'returns_stdout',
+                       f'plain exec: {ref.stdout!r:.200}; library: {o.value!r:.200}', sfx))
   else:
     c['intermediates_compared'] += 1
     out = dict(o.value) if isinstance(o.value, dict) else None
     if out is None:
-      ctx.violation('intermediates-differ', 'not-a-dict', f'{o.value!r:.200}', witness)
-      return o
+      problems.append(('intermediates-differ', 'not-a-dict', f'{o.value!r:.200}', sfx))
+      return o, problems
     so = out.pop('__stdout__', None)
     if so != ref.stdout:
-      ctx.violation('stdout-differs', 'outputs_intermediate',
-                    f'plain exec: {ref.stdout!r:.200}; library: {so!r:.200}', witness)
+      problems.append(('stdout-differs', 'outputs_intermediate',
+                       f'plain exec: {ref.stdout!r:.200}; library: {so!r:.200}', sfx))
     res = out.pop('__result__', None)
-    if defined and norm(res) != ref.result:
-      ctx.violation('result-differs', last_mech,
-                    f'plain exec: {ref.result!r:.200}; library __result__: {norm(res)!r:.200}', witness)
-    got = {k: norm(v) for k, v in out.items()}
-    if got != ref.outputs:
-      diff = sorted(k for k in set(got) | set(ref.outputs) if got.get(k) != ref.outputs.get(k))
-      ctx.violation('intermediates-differ', state_mech,
-                    f'variables that differ: {diff[:8]}; plain exec: '
-                    f'{ {k: ref.outputs.get(k) for k in diff[:4]}!r:.300}; library: '
-                    f'{ {k: got.get(k) for k in diff[:4]}!r:.300}', witness)
-  if not sandbox:
+    if comparable:
+      if tag:
+        c['exception_value_results_compared'] += 1
+      if defined and norm(res) != ref.result:
+        problems.append(('result-differs', last_mech,
+                         f'plain exec: {ref.result!r:.200}; library __result__: {norm(res)!r:.200}', sfx))
+      got = {k: norm(v) for k, v in out.items()}
+      if got != ref.outputs:
+        diff = sorted(k for k in set(got) | set(ref.outputs) if got.get(k) != ref.outputs.get(k))
+        problems.append(('intermediates-differ', state_mech,
+                         f'variables that differ: {diff[:8]}; plain exec: '
+                         f'{ {k: ref.outputs.get(k) for k in diff[:4]}!r:.300}; library: '
+                         f'{ {k: got.get(k) for k in diff[:4]}!r:.300}', sfx))
+    elif set(out) != set(ref.outputs):
+      problems.append(('intermediates-differ', state_mech,
+                       f'names: plain exec {sorted(ref.outputs)!r:.300}; library {sorted(out)!r:.300}', sfx))
+  if not forked:
     if shared_state(o.globals) != ref.shared:
-      ctx.violation('intermediates-differ', state_mech,
-                    f'objects reachable from global_vars after the run: plain exec {ref.shared!r:.300}; '
-                    f'library {shared_state(o.globals)!r:.300}', witness)
+      problems.append(('intermediates-differ', state_mech,
+                       f'objects reachable from global_vars after the run: plain exec {ref.shared!r:.300}; '
+                       f'library {shared_state(o.globals)!r:.300}', sfx))
     if o.hits != ref.hits:
-      ctx.violation('intermediates-differ', 'execution-count',
-                    f'the probe was read {o.hits} times, by plain exec {ref.hits} times', witness)
+      problems.append(('intermediates-differ', 'execution-count',
+                       f'the probe was read {o.hits} times, by plain exec {ref.hits} times', sfx))
+  return o, problems
+
+
+def check_one(ctx, info, ref, kind, arg=None, outer=None, inner=None,
+              mode='result', entry=E_EVAL, differential=False, stats=None):
+  """Runs one configuration, judges it and attributes what is wrong.
+
+  A problem seen with run / maybe_sandbox_call / sandbox_call is re-judged with
+  the same program, permissions and output mode given to plain `evaluate`:
+  when that control is fine, the way of executing is the mechanism."""
+  c = ctx.counters
+  sp = []
+  o, problems = observe(c, info, ref, kind, arg, outer, inner, mode, entry, differential,
+                        stats, sp)
+  for fn in o.filenames:
+    ctx.seen('dynamic_code_filenames', fn)
+  witness = {'program': info.code, 'config': fmt_cfg(kind, arg, outer, inner, mode, entry)}
+  if getattr(info, 'tag', None):
+    witness['values'] = info.tag
+  if outer is not None:
+    c['scope_checks'] += 1
+    for clause, mech, detail in sp:
+      ctx.violation(clause, mech, detail, witness)
+  if problems and entry != E_EVAL:
+    c['controls_by_evaluate'] += 1
+    _, control = observe(collections.Counter(), info, ref, kind, arg, outer, inner, mode,
+                         E_EVAL, differential)
+    if not control:
+      seen, attributed = set(), []
+      for clause, _, detail, suffix in problems:
+        # an error object that cannot be pickled: any forked way is the same fact
+        how = 'sandboxed' if (is_forked(entry) and not ref.error_picklable) else entry_desc(entry)
+        mech = how + (':' + suffix if suffix else '')
+        if (clause, mech) not in seen:
+          seen.add((clause, mech))
+          attributed.append((clause, mech, detail + ' [plain evaluate of the same configuration is fine]', ''))
+      problems = attributed
+  for clause, mech, detail, _ in problems:
+    ctx.violation(clause, mech, detail, witness)
   return o
 
 
@@ -460,9 +633,10 @@ def run_invalid(ctx, i):
     pass
   for arg in (ALL, rng.randrange(256), 0):
     for mode in ('result', 'inter'):
-      o = call_lib(code, 'arg', arg=arg, mode=mode)
+      entry = inproc_entry(rng, 0.6)
+      o = call_lib(code, 'arg', arg=arg, mode=mode, entry=entry)
       c['invalid_text_checks'] += 1
-      w = {'program': code, 'config': fmt_cfg('arg', arg, None, None, mode)}
+      w = {'program': code, 'config': fmt_cfg('arg', arg, None, None, mode, entry)}
       if o.executed:
         ctx.violation('invalid-text', 'executed', f'{o.status} {o.error!r:.200}', w)
       elif o.status != 'code-error' or not isinstance(o.error.cause, SyntaxError):
@@ -471,10 +645,107 @@ def run_invalid(ctx, i):
     ctx.sample({'invalid_program': code})
 
 
+def supply(rng, kind, need, lacking=0):
+  """Permission sets for one way of supplying permissions.
+
+  lacking == 0: the effective set is exactly `need` (or a random superset);
+  otherwise the enclosing scope / the only source lacks the flag `lacking` and
+  every other source grants everything."""
+  if lacking:
+    low = ALL & ~lacking
+    return {'arg': dict(arg=low), 'scope': dict(outer=low),
+            'scope+arg': dict(outer=low, arg=ALL),
+            'nested': dict(outer=low, inner=ALL),
+            'nested+arg': dict(outer=low, inner=ALL, arg=ALL)}[kind]
+  wide = lambda: need | rng.randrange(256) if rng.random() < 0.5 else need
+  return {'arg': dict(arg=need), 'scope': dict(outer=need),
+          'scope+arg': rng.choice([dict(outer=need, arg=wide()), dict(outer=wide(), arg=need)]),
+          'nested': dict(outer=need, inner=rng.choice([need, ALL])),
+          'nested+arg': dict(outer=wide(), inner=ALL, arg=need)}[kind]
+
+
+KINDS = ['arg', 'scope', 'scope+arg', 'nested', 'nested+arg']
+
+
+def forked_batch(ctx, info, ref, stats, n_accept, n_refuse, modes=('result', 'result', 'inter', 'stdout')):
+  """Forked ways of executing x ways of supplying the permission."""
+  rng = ctx.rng
+  exact = (info.must | info.maybe) or ALL
+  order = list(range(len(FORKED_KINDS)))
+  rng.shuffle(order)
+  for k in order[:n_accept]:
+    kind = rng.choice(KINDS)
+    check_one(ctx, info, ref, kind, mode=rng.choice(modes), entry=forked_entry(rng, k),
+              differential=True, stats=stats, **supply(rng, kind, exact))
+  if info.must:
+    rng.shuffle(order)
+    for k in order[:n_refuse]:
+      kind = rng.choice(KINDS)
+      lacking = rng.choice([f.value for f in FLAGS if info.must & f.value])
+      check_one(ctx, info, ref, kind, mode=rng.choice(modes), entry=forked_entry(rng, k),
+                stats=stats, **supply(rng, kind, exact, lacking))
+
+
+def run_exception_values(ctx, i):
+  """A program whose values are exception objects / classes, every way of executing."""
+  rng, c = ctx.rng, ctx.counters
+  code, tag = XP.exception_value_program(rng)
+  info = Info(code)
+  info.tag = tag
+  ref = Ref(info)
+  c['programs'] += 1
+  c['programs_exception_values'] += 1
+  c['exception_values:' + tag] += 1
+  c['programs_raising' if ref.error else 'programs_completing'] += 1
+  stats = {'refused': 0, 'executed': 0}
+  modes = ['result', 'stdout', 'inter']
+  exact = (info.must | info.maybe) or ALL
+  for mode in modes:
+    check_one(ctx, info, ref, 'arg', arg=rng.choice([exact, ALL]), mode=mode,
+              differential=True, stats=stats)
+    kind = rng.choice(KINDS)
+    check_one(ctx, info, ref, kind, mode=mode, entry=rng.choice(INPROC_ALT),
+              differential=True, stats=stats, **supply(rng, kind, exact))
+  if info.must:
+    kind = rng.choice(KINDS)
+    lacking = rng.choice([f.value for f in FLAGS if info.must & f.value])
+    check_one(ctx, info, ref, kind, mode=rng.choice(modes), entry=inproc_entry(rng),
+              stats=stats, **supply(rng, kind, exact, lacking))
+  if not ref.error_picklable:
+    # The error cannot be sent back by a forked child as it is; it still has
+    # to be reported.  Short timeout (the program takes microseconds): a run
+    # that never reports ends in TimeoutError.  Twice per shard.
+    if c['forked_unpicklable_error_checks'] < 2:
+      c['forked_unpicklable_error_checks'] += 1
+      name, sb = rng.choice(FORKED_KINDS)
+      check_one(ctx, info, ref, 'arg', arg=exact, mode='result', entry=(name, sb, 4),
+                differential=True, stats=stats)
+  else:
+    # every forked way of executing in result mode, two more in the other modes
+    for k in range(len(FORKED_KINDS)):
+      kind = rng.choice(KINDS)
+      check_one(ctx, info, ref, kind, mode='result', entry=forked_entry(rng, k),
+                differential=True, stats=stats, **supply(rng, kind, exact))
+    for mode in ('inter', 'stdout'):
+      kind = rng.choice(KINDS)
+      check_one(ctx, info, ref, kind, mode=mode, entry=forked_entry(rng),
+                differential=True, stats=stats, **supply(rng, kind, exact))
+    if info.must:
+      forked_batch(ctx, info, ref, stats, 0, 1)
+  if (len(info.classes) >= 2 or info.depth >= 2) and stats['refused'] and stats['executed']:
+    ctx.mark_nontrivial(code)
+  if c['exception_value_samples'] < 2:
+    c['exception_value_samples'] += 1
+    ctx.sample({'program': code, 'values': tag,
+                'reference': 'raises ' + ref.error[0] if ref.error else 'completes'})
+
+
 def run_case(ctx, i):
   rng, c = ctx.rng, ctx.counters
   if rng.random() < 0.04:
     return run_invalid(ctx, i)
+  if rng.random() < ctx.params.get('exception_value_share', 0.08):
+    return run_exception_values(ctx, i)
   small = rng.random() < 0.3
   if rng.random() < ctx.params.get('deep_error_share', 0.12):
     # run-time error raised 0..8+ calls below a top-level statement
@@ -507,8 +778,10 @@ def run_case(ctx, i):
   for s in ([exact] if exact else []) + [ALL]:
     for mode in modes:
       check_one(ctx, info, ref, 'arg', arg=s, mode=mode, differential=True, stats=stats)
-    check_one(ctx, info, ref, 'run', arg=s, mode=rng.choice(modes), differential=True, stats=stats)
-    check_one(ctx, info, ref, 'scope', outer=s, mode=rng.choice(modes), differential=True, stats=stats)
+    check_one(ctx, info, ref, 'arg', arg=s, mode=rng.choice(modes), entry=rng.choice(INPROC_ALT),
+              differential=True, stats=stats)
+    check_one(ctx, info, ref, 'scope', outer=s, mode=rng.choice(modes), entry=inproc_entry(rng),
+              differential=True, stats=stats)
 
   # 2. subsets as argument.
   if small and info.nodes <= 40 and rng.random() < 0.5:
@@ -517,32 +790,35 @@ def run_case(ctx, i):
   else:
     sweep = subsets_around(rng, info)
   for k, s in enumerate(sweep):
-    check_one(ctx, info, ref, 'arg' if k % 5 else 'run', arg=s, mode=modes[k % 3], stats=stats)
+    check_one(ctx, info, ref, 'arg', arg=s, mode=modes[k % 3],
+              entry=E_EVAL if k % 5 else rng.choice(INPROC_ALT), stats=stats)
 
-  # 3. scopes: alone, with an argument, nested.
+  # 3. scopes: alone, with an argument, nested, nested with an argument; each
+  #    with some in-process way of executing (with and without timeout).
   pool = subsets_around(rng, info)
-  for _ in range(4):
+  for k in range(4):
     o_, a_ = rng.choice(pool), rng.choice(pool)
-    check_one(ctx, info, ref, 'scope', outer=o_, mode=rng.choice(modes), stats=stats)
-    check_one(ctx, info, ref, 'scope+arg', outer=o_, arg=a_, mode=rng.choice(modes), stats=stats)
-    check_one(ctx, info, ref, 'nested', outer=o_, inner=a_, mode=rng.choice(modes), stats=stats)
-  # argument/inner grants everything needed, the enclosing scope does not.
+    check_one(ctx, info, ref, 'scope', outer=o_, mode=rng.choice(modes), entry=inproc_entry(rng), stats=stats)
+    check_one(ctx, info, ref, 'scope+arg', outer=o_, arg=a_, mode=rng.choice(modes),
+              entry=inproc_entry(rng), stats=stats)
+    check_one(ctx, info, ref, 'nested', outer=o_, inner=a_, mode=rng.choice(modes),
+              entry=inproc_entry(rng), stats=stats)
+    if k < 2:
+      check_one(ctx, info, ref, 'nested+arg', outer=o_, inner=a_, arg=rng.choice(pool),
+                mode=rng.choice(modes), entry=inproc_entry(rng), stats=stats)
+  # every other source grants everything needed, the enclosing scope does not.
   if info.must:
     lacking = rng.choice([f.value for f in FLAGS if info.must & f.value])
-    check_one(ctx, info, ref, 'scope+arg', outer=ALL & ~lacking, arg=ALL, stats=stats)
-    check_one(ctx, info, ref, 'nested', outer=ALL & ~lacking, inner=ALL, stats=stats)
-    check_one(ctx, info, ref, 'scope+arg', outer=ALL, arg=ALL & ~lacking, stats=stats)
+    for kind in ('scope', 'scope+arg', 'nested', 'nested+arg'):
+      check_one(ctx, info, ref, kind, entry=rng.choice(INPROC_ALT), stats=stats,
+                **supply(rng, kind, exact, lacking))
+    check_one(ctx, info, ref, 'scope+arg', outer=ALL, arg=ALL & ~lacking,
+              entry=inproc_entry(rng), stats=stats)
 
-  # 4. sandboxed run (forked child; the probe writes to a pipe).
+  # 4. forked ways of executing (the probe writes to a pipe) x ways of
+  #    supplying the permission.
   if i % ctx.params['sandbox_every'] == 0:
-    simple = ('int', 'bool', 'str', 'NoneType', 'float')
-    check_one(ctx, info, ref, 'run', arg=exact or ALL, mode='result', sandbox=True,
-              differential=(ref.error is not None
-                            or (ref.result_defined and ref.result[0] in simple)),
-              stats=stats)
-    if info.must:
-      lacking = rng.choice([f.value for f in FLAGS if info.must & f.value])
-      check_one(ctx, info, ref, 'run', arg=ALL & ~lacking, mode='result', sandbox=True, stats=stats)
+    forked_batch(ctx, info, ref, stats, 3, 3)
 
   if (len(info.classes) >= 2 or info.depth >= 2) and stats['refused'] and stats['executed']:
     ctx.mark_nontrivial(code)
